@@ -342,6 +342,9 @@ func runC14(c *sim.Ctx) *sim.Violation {
 					// WORKLOAD disturbing a bystander, not the library. Attach a fresh one.
 					o.Kind = "will"
 				}
+				if o.Kind == "editwill" {
+					o.Kind = "userprops" // same reason: never edit a possibly shared will in place
+				}
 				sim.Guard(func() { drv.Apply(e.p, o) })
 				touched = i
 				what = fmt.Sprintf("%s on #%d", o, i)
